@@ -64,6 +64,8 @@ def value(kind, cls, L):
     }
     if kind in simple:
         return simple[kind]
+    if kind.startswith('dict_fn_') and kind[8:] in ('adj', 'cross', 'ctrans', 'det', 'norm', 'trace', 'trans'):
+        return {kind[8:]: f1}         # a name that is a default function of MatrixGrader only
     fresh = {
         'list_empty': lambda: [], 'list_xy': lambda: ['x', 'y'], 'list_ab': lambda: ['a', 'b'], 'list_const': lambda: ['pi'],
         'list_fn': lambda: ['sin', 'cos'], 'list_none1': lambda: [None], 'list_mixed': lambda: ['x', 3],
@@ -74,6 +76,7 @@ def value(kind, cls, L):
         'dict_empty': lambda: {}, 'dict_int_key': lambda: {1: 3.5}, 'dict_fn_f': lambda: {'f': f1}, 'dict_fn_sin': lambda: {'sin': f1},
         'dict_fn_rand': lambda: {'f': L['RandomFunction']()}, 'dict_fn_list': lambda: {'f': [f1, f1b]},
         'dict_const_c': lambda: {'c': 3.5}, 'dict_const_x': lambda: {'x': 3.5}, 'dict_const_pi': lambda: {'pi': 3.5},
+        'list_infty': lambda: ['infty'], 'dict_const_infty': lambda: {'infty': 3.5},
         'dict_const_del': lambda: {'pi': None}, 'dict_const_arr': lambda: {'A': L['MathArray']([[1, 2], [3, 4]])}, 'dict_str_str': lambda: {'c': 'abc'}, 'dict_sample_x': lambda: {'x': [1, 3]},
         'dict_range': lambda: {'start': 2, 'stop': 4},
         'dict_asm': lambda: {'is_raised': False, 'msg_detail': 'shape'}, 'dict_asm_part': lambda: {'is_raised': False},
@@ -382,14 +385,46 @@ def project_answers(cls, answers):
     return 'ok', out
 
 
-def observe_answers(cls, ans, L):
-    """-> observation dict for an answers case"""
+def project_comparer(answers, L):
+    """the comparer the validated answers pair their (string) expect values with: (seen, {kind, credit, msg})"""
+    found = []
+    if isinstance(answers, tuple):
+        for a in answers:
+            for e in (a.get('expect', ()) if isinstance(a, dict) else ()):
+                if isinstance(e, dict) and 'comparer' in e:
+                    cmp = e['comparer']
+                    if isinstance(cmp, L['MatrixEntryComparer']):
+                        found.append({'kind': 'entry', 'credit': tok('entry_partial_credit', cmp.config['entry_partial_credit'], L),
+                                      'msg': tok('entry_partial_msg', cmp.config['entry_partial_msg'], L)})
+                    elif isinstance(cmp, L['EqualityComparer']) and tok('transform', cmp.config['transform'], L) == 'None':
+                        found.append({'kind': 'equality', 'credit': '-', 'msg': '-'})
+                    else:
+                        found.append({'kind': '?' + type(cmp).__name__, 'credit': '-', 'msg': '-'})
+                elif isinstance(e, str):
+                    found.append({'kind': 'none', 'credit': '-', 'msg': '-'})
+    if not found:
+        return False, {'kind': 'none', 'credit': '-', 'msg': '-'}
+    if any(f != found[0] for f in found):
+        return True, {'kind': 'mixed', 'credit': '-', 'msg': '-'}
+    return True, found[0]
+
+
+def observe_answers(cls, ans, L, ctx=()):
+    """-> observation dict for an answers case; ctx: the other options of the configuration as (option, kind) pairs"""
     C = L[cls]
-    s1, e1, o1 = attempt(lambda: C({'answers': answers_value(cls, ans)}), L)
-    s2, e2, o2 = attempt(lambda: C(answers=answers_value(cls, ans)), L)
+
+    def cfg():
+        d = make_args(cls, ctx, L)[1]
+        d['answers'] = answers_value(cls, ans)
+        return d
+    s1, e1, o1 = attempt(lambda: C(cfg()), L)
+    s2, e2, o2 = attempt(lambda: C(**cfg()), L)
     obs = {'status': s1, 'exc': e1, 'status_kw': s2, 'exc_kw': e2, 'canon': [], 'canon_ok': True, 'kwargs_equal': s1 == s2,
-           'idempotent': True, 'detail': ''}
+           'idempotent': True, 'detail': '', 'cmp_seen': False, 'cmp': {'kind': 'none', 'credit': '-', 'msg': '-'},
+           'cmp_kw': {'kind': 'none', 'credit': '-', 'msg': '-'}}
     if s1 == 'accept':
+        obs['cmp_seen'], obs['cmp'] = project_comparer(o1.config['answers'], L)
+        obs['cmp_kw'] = project_comparer(o2.config['answers'], L)[1] if s2 == 'accept' else obs['cmp']
         st, proj = project_answers(cls, o1.config['answers'])
         if st == 'bad':
             obs['canon_ok'] = False
@@ -405,10 +440,14 @@ def observe_answers(cls, ans, L):
     return obs
 
 
-def judge_answers(expect, canon, obs):
+def judge_answers(expect, canon, obs, cmp=None):
     probs = []
     if expect == 'skip':
         return probs
+    if cmp is not None and obs['status'] == 'accept' and obs.get('cmp_seen'):
+        for form, got in (('dict', obs['cmp']), ('kwargs', obs['cmp_kw'])):
+            if got != cmp:
+                probs.append(('comparer', 'answers-normalised-with-wrong-comparer', cmp, '%s form: %s' % (form, got)))
     for form, s, e in (('dict', obs['status'], obs['exc']), ('kwargs', obs['status_kw'], obs['exc_kw'])):
         if s == 'other':
             probs.append(('exception', 'non-config-exception:%s' % e, 'success or configuration/validation error',
@@ -431,13 +470,18 @@ def judge_answers(expect, canon, obs):
 
 # ---------------------------------------------------------------- answers of list graders
 def listans_value(la):
+    delim = DELIM[la.get('delim', 'comma')]
+
     def alt_value(alt):
         entries = [answers_value('StringGrader', e) for e in alt['entries']]
         if alt['form'] == 'string':
-            return ','.join(entries)
+            return delim.join(entries)
         if alt['form'] == 'list':
             return entries
-        d = {'expect': entries}
+        lists = [entries] + [[answers_value('StringGrader', e) for e in lst] for lst in alt.get('more', [])]
+        if alt.get('estr'):
+            lists = [delim.join(x) for x in lists]
+        d = {'expect': tuple(lists) if len(lists) > 1 else lists[0]}
         if alt['grade'] != 'absent':
             d['grade_decimal'] = GRADE[alt['grade']]
         if alt['msg'] != 'absent':
@@ -484,8 +528,17 @@ def project_listans(cls, answers):
 def observe_listans(cls, la, L):
     C = L[cls]
     sub = 'subgraders' if cls == 'ListGrader' else 'subgrader'
-    s1, e1, o1 = attempt(lambda: C({sub: L['StringGrader'](), 'answers': listans_value(la)}), L)
-    s2, e2, o2 = attempt(lambda: C(**{sub: L['StringGrader'](), 'answers': listans_value(la)}), L)
+
+    def cfg():
+        d = {sub: L['StringGrader'](), 'answers': listans_value(la)}
+        if cls == 'SingleListGrader':
+            if la.get('lenerr'):
+                d['length_error'] = True
+            if la.get('delim', 'comma') != 'comma':
+                d['delimiter'] = DELIM[la['delim']]
+        return d
+    s1, e1, o1 = attempt(lambda: C(cfg()), L)
+    s2, e2, o2 = attempt(lambda: C(**cfg()), L)
     obs = {'status': s1, 'exc': e1, 'status_kw': s2, 'exc_kw': e2, 'canon': [], 'canon_ok': True, 'kwargs_equal': s1 == s2,
            'idempotent': True, 'detail': ''}
     if s1 == 'accept':
@@ -714,15 +767,17 @@ def replay_states(states, extra):
             if obs.get('eq_raised'):
                 res['eq_raised'] += 1
         elif kind == 'answers':
-            obs = observe_answers(c['cls'], c['ans'], L)
-            probs = judge_answers(expect, out['canon'], obs)
-            case = {'part': kind, 'cls': c['cls'], 'ans': c['ans']}
-            res['keys'].add((kind, c['cls'], expect, len(c['ans']['items']), c['ans']['tup']))
+            ctx = sorted(tuple(p) for p in out['ctx'])
+            obs = observe_answers(c['cls'], c['ans'], L, ctx)
+            probs = judge_answers(expect, out['canon'], obs, out['cmp'])
+            case = {'part': kind, 'cls': c['cls'], 'ctx': [list(p) for p in ctx], 'ans': c['ans']}
+            res['keys'].add((kind, c['cls'], c['ctx'], expect, len(c['ans']['items']), c['ans']['tup']))
         elif kind == 'listans':
             obs = observe_listans(c['cls'], c['la'], L)
             probs = judge_answers(expect, out['canon'], obs)
             case = {'part': kind, 'cls': c['cls'], 'ans': c['la']}
-            res['keys'].add((kind, c['cls'], expect, len(c['la']['alts']), c['la']['alts'][0]['form']))
+            res['keys'].add((kind, c['cls'], expect, len(c['la']['alts']), c['la']['alts'][0]['form'],
+                             len(c['la']['alts'][0]['more']), c['la']['lenerr'], c['la']['delim']))
         elif kind == 'lgroup':
             obs = observe_lg(c, L)
             probs = judge_simple(expect, obs, 'listgrader')
@@ -830,7 +885,18 @@ def rand_records(rng, n, table):
             cls = rng.choice(sorted(ATOMS))
             tup = rng.random() < .7
             items = [rand_item(rng, True) for _ in range(rng.randint(0, 5) if tup else 1)]
-            recs.append({'id': i, 'ev': 'answers', 'cls': cls, 'ans': {'tup': tup, 'items': items}})
+            ctx = []
+            if rng.random() < .5:
+                ctx.append(['wrong_msg', rng.choice(['str', 'str_empty'])])
+            if cls != 'StringGrader' and rng.random() < .3:
+                ctx.append(['tolerance', rng.choice(['pct_ok', 'float_frac', 'int_zero'])])
+            if cls == 'MatrixGrader' or (cls != 'StringGrader' and rng.random() < .03):   # out of place for the other classes
+                if rng.random() < .5:
+                    ctx.append(['entry_partial_credit', rng.choice(['enum_proportional', 'float_frac', 'float_one', 'float_zero',
+                                                                    'int_zero', 'int_one'])])
+                if rng.random() < .4:
+                    ctx.append(['entry_partial_msg', rng.choice(['str', 'str_empty', 'str_char'])])
+            recs.append({'id': i, 'ev': 'answers', 'cls': cls, 'ctx': sorted(ctx), 'ans': {'tup': tup, 'items': items}})
         elif r < .82:
             cls = rng.choice(['ListGrader', 'SingleListGrader'])
             n = rng.randint(1, 5)
@@ -839,20 +905,33 @@ def rand_records(rng, n, table):
                 tup = rng.random() < .3
                 return {'tup': tup, 'items': [rand_item(rng, True) for _ in range(rng.randint(1, 3) if tup else 1)]}
 
+            def atom_entry():
+                return {'tup': False, 'items': [{'form': 'atom', 'expect': [rng.choice(['e1', 'e2', 'e3'])], 'etup': False,
+                                                 'grade': 'absent', 'msg': 'absent', 'ok': 'absent', 'extra': False}]}
+
             def alt():
                 form = rng.choice(['list', 'list', 'dict', 'string'] if cls == 'SingleListGrader' else ['list'] * 8 + ['dict', 'string'])
                 if form == 'string':
-                    ents = [{'tup': False, 'items': [{'form': 'atom', 'expect': [rng.choice(['e1', 'e2', 'e3'])], 'etup': False,
-                                                      'grade': 'absent', 'msg': 'absent', 'ok': 'absent', 'extra': False}]}
-                            for _ in range(n)]
+                    ents = [atom_entry() for _ in range(n)]
                 else:
                     ents = [entry() for _ in range(n if rng.random() < .9 else rng.randint(1, 5))]
-                return {'form': form, 'entries': ents,
+                more, estr = [], False
+                if form == 'dict' and cls == 'SingleListGrader' and rng.random() < .5:
+                    estr = rng.random() < .4
+                    for _ in range(rng.randint(1, 3)):
+                        m = n if rng.random() < .6 else rng.randint(1, 5)
+                        more.append([atom_entry() for _ in range(m)] if estr else [entry() for _ in range(m)])
+                    if estr:
+                        ents = [atom_entry() for _ in range(len(ents))]
+                return {'form': form, 'entries': ents, 'more': more, 'estr': estr,
                         'grade': rng.choice(['absent', 'absent', 'ghalf', 'g0', 'g1', 'g2']) if form == 'dict' else 'absent',
                         'msg': rng.choice(['absent', 'm_text', 'm_empty', 'm_int']) if form == 'dict' else 'absent'}
             bare = rng.random() < .4
+            single = cls == 'SingleListGrader'
             recs.append({'id': i, 'ev': 'listans', 'cls': cls,
-                         'la': {'bare': bare, 'alts': [alt() for _ in range(1 if bare else rng.randint(1, 3))]}})
+                         'la': {'bare': bare, 'alts': [alt() for _ in range(1 if bare else rng.randint(1, 3))],
+                                'lenerr': single and rng.random() < .5,
+                                'delim': rng.choice(['comma', 'semi', 'colon']) if single else 'comma'}})
         elif r < .9:
             one = rng.random() < .4
             subs = [rng.choice(['item', 'list']) for _ in range(1 if one else rng.randint(2, 4))]
@@ -905,7 +984,10 @@ def observe_chunk(recs, extra):
                     r['defaults'] = sorted([k, v] for k, v in od.items())
                 r['idempotent'] = check_object(r['cls'], first[2], L)['idempotent'] is not False
         elif ev in ('answers', 'listans'):
-            o = observe_answers(r['cls'], r['ans'], L) if ev == 'answers' else observe_listans(r['cls'], r['la'], L)
+            o = observe_answers(r['cls'], r['ans'], L, [tuple(p) for p in r['ctx']]) if ev == 'answers' \
+                else observe_listans(r['cls'], r['la'], L)
+            if ev == 'answers':
+                r.update(cmp_seen=o['cmp_seen'], cmp=o['cmp'], cmp_kw=o['cmp_kw'])
             r.update(status=o['status'], status_kw=o['status_kw'], exc=o['exc'] or o['exc_kw'] or '', canon=o['canon'],
                      canon_ok=o['canon_ok'], kwargs_equal=o['kwargs_equal'], idempotent=o['idempotent'])
         else:
@@ -920,6 +1002,7 @@ def observe_chunk(recs, extra):
 CLAUSE_CLASS = {
     'exception': None, 'accepts': 'accepts-out-of-domain', 'rejects': 'rejects-in-domain', 'kwargs': 'kwargs-dict-differ',
     'idempotent': 'not-idempotent', 'canonical': 'answers-not-canonical', 'default': 'default-mismatch',
+    'comparer': 'answers-normalised-with-wrong-comparer',
     'missing': 'option-missing-from-config',
 }
 
@@ -928,7 +1011,7 @@ def report_trace(ctx, r, clause):
     clause = str(clause)
     head = clause.split(':')[0]
     klass = refine(CLAUSE_CLASS.get(head) or 'non-config-exception:%s' % r.get('exc'), r)
-    case = {k: r[k] for k in r if k in ('cls', 'cfg', 'ans', 'la', 'chain', 'ordered', 'subs', 'one', 'grouping', 'nans', 'ntup',
+    case = {k: r[k] for k in r if k in ('cls', 'cfg', 'ctx', 'ans', 'la', 'chain', 'ordered', 'subs', 'one', 'grouping', 'nans', 'ntup',
                                         'form', 'open', 'close', 'nbounds', 'curly', 'wrap',
                                         'symmetry', 'traceless', 'determinant', 'complex', 'dimension')}
     sig = {'part': 'trace:' + r['ev']}
@@ -1055,7 +1138,10 @@ def replay(ctx, rec):
             return opt in od and (token is None or od[opt] == token)
         return False
     if part == 'answers':
-        obs = observe_answers(sig['cls'], sig['ans'], L)
+        obs = observe_answers(sig['cls'], sig['ans'], L, [tuple(p) for p in sig.get('ctx', [])])
+        if aspect == 'comparer':
+            print('now     :', obs['cmp'], obs['cmp_kw'])
+            return obs['status'] == 'accept' and isinstance(expected, dict) and obs['cmp'] == expected and obs['cmp_kw'] == expected
     elif part == 'listans':
         obs = observe_listans(sig['cls'], sig.get('la') or sig['ans'], L)
     else:
